@@ -1,0 +1,71 @@
+//go:build verif
+
+package keeper
+
+// Contracts for the deductive checker in /verif (comment-only; compiled only with -tags verif).
+// C08, the bank wrapper's ERC20 send path: only the spendable part (balance - LockedCoins) of the sender's bank coins is
+// converted into ERC20 tokens. Lib specs: /verif/specs/c08g/61_bank.spec.
+
+/*@
+// ---- expected erc20 keeper: BalanceOf is a read-only EVM call (x/erc20 keeper: CallEVM with commit=false); nil on failure,
+// otherwise a newly allocated big.Int (assumed contract = trusted leaf)
+func (ERC20Keeper).BalanceOf
+    trusted
+    params ek, ctx, abi, contract, account
+    ensures result != nil ==> fresh(result) && *result >= 0     // an ERC20 balance is a uint256
+
+// C08: the conversion request handed to the erc20 keeper is made for the sender itself, in the denom of the transfer, on the
+// unchanged bank state, and for a positive amount of at most balance - LockedCoins(sender)[denom]; the EVM transfer that
+// follows is made from the sender's own EVM address.
+func (msgServer).subUnlockedERC20Tokens
+    let locked = bank_locked(k.Keeper, ctx, fromAddr)[amt.Denom]
+    requires keeper: k.Keeper != nil && k.ek != nil
+    // from the call site (sendCoinsWithERC20): the pair is the one registered for the coin's denom
+    requires pair: tokenPair.Denom == amt.Denom
+    modifies bank_bal, bank_supply, auth_accs   // only through the erc20 keeper (ConvertCoin, CallEVM), which is unknown code
+    allow frame
+    // `res.Ret` after the EVM transfer: the erc20 keeper returns a non-nil response with a nil error (not specified here,
+    // CallEVM stays unknown code); irrelevant for the conversion bound
+    allow nil
+    call ConvertCoin requires atmost: msg != nil && msg.Sender == addr_string(fromAddr) && msg.Coin.Denom == amt.Denom
+            && 0 < msg.Coin.Amount && msg.Coin.Amount <= bank_bal[fromAddr][amt.Denom] - locked
+    call ConvertCoin requires same: goCtx == ctx_wrap(ctx) && bank_bal == old(bank_bal) && auth_accs == old(auth_accs) && bank_supply == old(bank_supply)
+    call CallEVM requires own: from == bytes_to_address(addr_bytes(fromAddr)) && method == "transfer"
+
+// ---- expected keepers of the wrapper (assumed contracts = trusted leaves): erc20 params / token-pair store reads,
+// account store reads and writes
+func (ERC20Keeper).IsERC20Enabled
+    trusted
+    pure
+func (ERC20Keeper).GetTokenPairID
+    trusted
+    params ek, ctx, token
+    pure as erc20_pair_id
+// the denom index of the token-pair store is consistent: the id stored for a denom is the id of a pair with that denom
+func (ERC20Keeper).GetTokenPair
+    trusted
+    params ek, ctx, id
+    ensures result.1 ==> (forall dn string :: id == erc20_pair_id(ek, ctx, dn) ==> result.0.Denom == dn)
+func (AccountKeeper).HasAccount
+    trusted
+    pure
+func (AccountKeeper).NewAccountWithAddress
+    trusted
+    pure
+func (AccountKeeper).SetAccount
+    trusted
+    modifies auth_accs
+
+// C08: every coin that takes the ERC20 route goes through the guard above, with the sender and recipient of this very
+// send, one of the requested coins and the token pair registered for that coin's denom; the native rest goes through the
+// SDK bank keeper (which enforces LockedCoins itself) with the same sender and recipient.
+func (msgServer).sendCoinsWithERC20
+    requires keeper: k.Keeper != nil && k.ek != nil && k.ak != nil
+    modifies bank_bal, bank_supply, auth_accs
+    allow frame
+    rawslice nativeCoins
+    call subUnlockedERC20Tokens requires own: fromAddr == from && toAddr == to && amt == coin   // the current element of the requested coins
+    call SendCoins requires own: fromAddr == from && toAddr == to
+    loop 1 invariant idx: 0 <= #i && #i <= coins_len(amt)
+    loop 1 invariant frame: from == old(from) && to == old(to) && amt == old(amt) && k == old(k)
+@*/
